@@ -278,23 +278,26 @@ Definition run_parser (ports : list portreg) (p : parser) (base : bool) (m : msg
       Ok (m2, 8, PNone)
   end.
 
-(* the custom layer mappings of one layer *)
+(* the mappings configured under one key, in file order *)
+Fixpoint apply_key_maps (maps : list layermap) (k : string) (encap : bool) (data : bytes) (offset : N) (m : msg)
+  : res msg :=
+  match maps with
+  | [] => Ok m
+  | c :: r =>
+      if String.eqb (lKey c) k && Bool.eqb (lEncap c) encap then
+        let* ex := get_bytes data (Z.of_N offset * 8 + lOff c) (lLen c) true in
+        let* m' := map_custom m ex (lMap c) in
+        apply_key_maps r k encap data offset m'
+      else apply_key_maps r k encap data offset m
+  end.
+
+(* the custom layer mappings of one layer: for each config key of the parser *)
 Fixpoint apply_layer_maps (maps : list layermap) (keys : list string) (encap : bool)
          (data : bytes) (offset : N) (m : msg) : res msg :=
   match keys with
   | [] => Ok m
   | k :: ks =>
-      let* m1 :=
-        (fix go (l : list layermap) (m : msg) : res msg :=
-           match l with
-           | [] => Ok m
-           | c :: r =>
-               if String.eqb (lKey c) k && Bool.eqb (lEncap c) encap then
-                 let* ex := get_bytes data (Z.of_N offset * 8 + lOff c) (lLen c) true in
-                 let* m' := map_custom m ex (lMap c) in
-                 go r m'
-               else go r m
-           end) maps m in
+      let* m1 := apply_key_maps maps k encap data offset m in
       apply_layer_maps maps ks encap data offset m1
   end.
 
